@@ -19,23 +19,18 @@ func init() {
 	})
 }
 
-// Reviewed beliefs (one reason each). Keys are "<function>: <expression>" with register-free renderings.
+// Reviewed beliefs (one reason each). Keys are expression SHAPES (local names erased, see renderShape), so an entry
+// survives renames and the move of the expression into another function of the never-panics set.
 var c05Table = map[string]string{
-	"(*rt/middleware/denco.Router).Lookup: call (*rt/middleware/denco.doubleArray).lookup(rt.param,path,make(0),1) establishes precondition on idx": "build invariant: Lookup returns early when len(rt.param.node) == 1 (no parameterised route); otherwise build() has arranged the root's children, which extends bc beyond index 1 (findBase appends up to the child index)",
-	"(*rt/middleware/denco.doubleArray).lookup: da.bc[(φ[φ]&4294967295)]":                                                                      "indices only holds (i<<32 | idx) pairs pushed by the literal walk at a point where da.bc[idx] had just been read successfully (idx < len(da.bc)); bc never shrinks",
-	"(*rt/middleware/denco.doubleArray).lookup: path[(φ[φ]>>32):denco.NextSeparator(path,(φ[φ]>>32))]":                              "the high 32 bits of an indices entry are a loop index i of the literal walk (0 <= i < len(path)); NextSeparator returns a value in [i, len(path)] (verified from its own shape)",
-	"(*rt/middleware/denco.doubleArray).lookup: path[denco.NextSeparator(path,(φ[φ]>>32)):]":                                                  "NextSeparator(path, i) <= len(path) for 0 <= i <= len(path) (verified from its own shape); i is a recorded loop index",
-	"(*rt/middleware/denco.doubleArray).lookup: path[(φ[φ]>>32):]":                                                                              "the high 32 bits of an indices entry are a loop index i of the literal walk, 0 <= i < len(path)",
-	"(*rt/middleware/denco.doubleArray).lookup: call denco.NextSeparator(path,(φ[φ]>>32)) establishes precondition on start":                  "the high 32 bits of an indices entry are a non-negative loop index",
-}
-
-func init() {
-	c05Table["(*rt/middleware/denco.doubleArray).lookup: da.node[(rt/middleware/denco.baseCheck).Base(da.bc[denco.nextIndex((rt/middleware/denco.baseCheck).Base(da.bc[φ]),35)])]"] =
-		"the cell was reached through a CHECK-verified transition on the termination byte '#'; build() only creates such cells as leaf links whose BASE is the index of the node it has just appended (patterns are assumed not to contain the termination byte). No panicking input was found by 4M random lookups in the design round"
-	c05Table["(*rt/middleware/denco.doubleArray).lookup: da.bc[denco.nextIndex((rt/middleware/denco.baseCheck).Base(da.bc[(φ[φ]&4294967295)]),42)]"] =
-		"the wildcard flag of cell idx is only set by build() right after it has arranged a '*' child for that cell, and findBase extends bc up to every child index; bc never shrinks. (Its sibling, the single-parameter branch, does test nextIdx >= len(da.bc); no panicking input found in the design round)"
-	c05Table["(*rt/middleware/denco.doubleArray).build: call denco.NextSeparator(&srcs[&sib.start:&sib.end][φ].Record.Key,(depth+1)) establishes precondition on start"] =
-		"depth is the recursion depth of build: 0 at the root and depth+1 or 0 in the recursive calls, hence never negative"
+	"call lookup precondition from Lookup":              "build invariant: Lookup returns early when len(rt.param.node) == 1 (no parameterised route); otherwise build() has arranged the root's children, which extends bc beyond index 1 (findBase appends up to the child index)",
+	"_.bc[(_[_]&4294967295)]":                           "indices only holds (i<<32 | idx) pairs pushed by the literal walk at a point where da.bc[idx] had just been read successfully (idx < len(da.bc)); bc never shrinks",
+	"_[(_[_]>>32):NextSeparator(_,(_[_]>>32))]":         "the high 32 bits of an indices entry are a loop index i of the literal walk (0 <= i < len(path)); NextSeparator returns a value in [i, len(path)] (verified from its own shape, R05.4)",
+	"_[NextSeparator(_,(_[_]>>32)):]":                   "NextSeparator(path, i) <= len(path) for 0 <= i <= len(path) (verified from its own shape, R05.4); i is a recorded loop index",
+	"_[(_[_]>>32):]":                                    "the high 32 bits of an indices entry are a loop index i of the literal walk, 0 <= i < len(path)",
+	"call NextSeparator precondition from lookup":       "the high 32 bits of an indices entry are a non-negative loop index",
+	"call NextSeparator precondition from build":        "depth is the recursion depth of build: 0 at the root and depth+1 or 0 in the recursive calls, hence never negative",
+	"_.node[Base(_.bc[nextIndex(Base(_.bc[_]),35)])]":   "the cell was reached through a CHECK-verified transition on the termination byte '#'; build() only creates such cells as leaf links whose BASE is the index of the node it has just appended (patterns are assumed not to contain the termination byte). No panicking input was found by 4M random lookups in the design round",
+	"_.bc[nextIndex(Base(_.bc[(_[_]&4294967295)]),42)]": "the wildcard flag of cell idx is only set by build() right after it has arranged a '*' child for that cell, and findBase extends bc up to every child index; bc never shrinks. (Its sibling, the single-parameter branch, does test nextIdx >= len(da.bc); no panicking input found in the design round)",
 }
 
 var c05Assumptions = []boundsAssumption{
@@ -174,7 +169,7 @@ func dencoStructural(c *Ctx, r2, r3, r4, r5 string) {
 		// natural loop containing the IsSingleParam test: every path from the test back to the loop header passes the wildcard test
 		sb := single[0].Block()
 		var header *ssa.BasicBlock
-		for _, b := range lk.Blocks {
+		for _, b := range single[0].Parent().Blocks { // (the loop may live in a helper of lookup)
 			if b.Dominates(sb) && reachableFrom(sb, b) {
 				if _, isIf := lastInstr(b).(*ssa.If); isIf {
 					hasPhi := false
@@ -191,7 +186,7 @@ func dencoStructural(c *Ctx, r2, r3, r4, r5 string) {
 		}
 		ok := header != nil
 		if ok {
-			ok = !pathExists(lk, single[0], lastInstr(header), nil, isOneOf(wild[0]))
+			ok = !pathExists(single[0].Parent(), single[0], lastInstr(header), nil, isOneOf(wild[0]))
 		}
 		c.obI(r5, single[0], "wildcard-tried-for-every-candidate", ok, "for every candidate node of the backtracking loop, the wildcard alternative is examined whenever the single-parameter alternative did not return a match", "an iteration can move to the next candidate without testing IsWildcardParam")
 	}
